@@ -6,21 +6,25 @@ TEMPLATES = c02.TEMPLATES
 NATIVE = c02.NATIVE
 
 
+POOL_SEED = 20261003
+
+
 def shapes_for(tier, seed):
-    """(name, shape, canon) list.  quick: all <= 3 nodes + seeded sample of 40 four/five-node shapes;
-    thorough: all <= 4 nodes + seeded sample of 400 five-node shapes."""
+    """(name, shape, canon) list.  All shapes with <= 3 nodes are always run.  Larger shapes come from a fixed pool
+    (all 4-node shapes + 400 five-node shapes drawn once with POOL_SEED) so that the known-findings list can name
+    every shape a tier may run; quick samples 25 + 15 of the pool with VERIF_SEED, thorough runs the whole pool."""
     small = list(progs.grammar_shapes(3))
     four = [s for s in progs.grammar_shapes(4) if s[1] == 4]
+    five_all = [s for s in progs.grammar_shapes(5) if s[1] == 5]
+    pool5 = random.Random(POOL_SEED).sample(five_all, 400)
     rnd = random.Random(seed)
     out = [(s, n) for s, n in small]
     if os.environ.get('VERIF_C05_ALL'):
-        out = list(progs.grammar_shapes(5))  # exhaustive5: every shape with <= 5 nodes (used to build the known-findings list)
+        out = list(progs.grammar_shapes(5))  # exhaustive5: every shape with <= 5 nodes (not registered)
     elif tier == 'quick':
-        five = [s for s in progs.grammar_shapes(5) if s[1] == 5]
-        out += rnd.sample(four, 25) + rnd.sample(five, 15)
+        out += rnd.sample(four, 25) + rnd.sample(pool5, 15)
     else:
-        five = [s for s in progs.grammar_shapes(5) if s[1] == 5]
-        out += four + rnd.sample(five, 400)
+        out += four + pool5
     res = []
     for i, (s, n) in enumerate(out):
         res.append(('s%04d' % i, s, progs.shape_canon(s)))
@@ -74,10 +78,11 @@ def main(tier, replay):
             continue
         stub = c02.nostats(n)
         wide = n == 'flat24'
-        # shapes with <= 3 nodes: two structurally free records; larger shapes: one free record followed by a fixed-structure one
+        # shapes with <= 3 nodes: two structurally free records, strings <= 1 byte; larger shapes: one free record followed by a
+        # fixed-structure one, empty strings (string lengths multiply the structure space without adding structure)
         small = n in nodes and nodes[n] <= 3
         jobs.append({'name': 'shred|%s|%s' % (n, canon[n]), 'pkg': 'scratch/' + n, 'func': 'HarnessShred',
-                     'args': [0, 3, 0, 2, 1, 1, 3, 0] if wide else ([2, 0, 0, 2, 1, 1, 3, 0] if small else [1, 1, 0, 2, 1, 1, 3, 0]), 'opt': {'stub': stub, 'max_paths': 120000}})
+                     'args': [0, 3, 0, 2, 1, 1, 3, 0] if wide else ([2, 0, 0, 2, 1, 1, 3, 0] if small else [1, 1, 0, 2, 0, 1, 3, 0]), 'opt': {'stub': stub, 'max_paths': 120000}})
         jobs.append({'name': 'file|%s|%s' % (n, canon[n]), 'pkg': 'scratch/' + n, 'func': 'HarnessFile',
                      'args': [0, 2, -1, 1, 1, len(n) % 3, 1, 0, 0] if wide else [1, 1, -1, 1, 1, len(n) % 3, 1, 0, 0], 'opt': {'stub': stub, 'mode_b': True}})
     jobs.append({'name': 'sens-striping', 'pkg': 'scratch/flat_int32', 'func': 'HarnessShred', 'args': [1, 0, 0, 1, 1, 0, 3, 1], 'expect': 'striping', 'opt': {}})
